@@ -96,6 +96,10 @@ Record BInv (r : breader) : Prop := {
            s_start s <= s_start (b_pos r) <= s_stop s /\ s_stop (b_pos r) = s_stop s /\
            b_head r = s_start s /\
            (s_start (b_pos r) = s_stop s -> s_stop s = b_last r);
+  (* also when the reader has run off the block (line >= number of lines) the position and the
+     head stay inside the source; over an empty block the position is the marker -1 *)
+  bi_bounds : (b_segs r = [] /\ s_start (b_pos r) = -1 /\ b_head r = -1) \/
+              (b_segs r <> [] /\ 0 <= b_head r /\ 0 <= s_start (b_pos r) <= zlen (b_src r));
   bi_loff : b_loff r <> -1 -> b_loff r = b_column r
 }.
 
